@@ -1,20 +1,55 @@
-(* Entry points evaluated by harness/c14.py (bigQ execution of Model/Reck.v).
+(* Entry points evaluated by harness/c14.py (exact dyadic execution of Model/Reck.v).
    The oracles of [env] are finite tables supplied by the harness: keys are the
    exact rationals the model computes, values the Python float evaluation of
    the elementary function / the replicated numpy stream. *)
-From Coq Require Import ZArith QArith List Bool.
-From Bignums Require Import BigQ.
+From Coq Require Import ZArith List Bool.
+From Bignums Require Import BigZ.
 From LW Require Import Base.Num Base.Sums Base.Mat Base.Sx Exec.QNum Model.Reck.
 Import ListNotations.
 
-(* dyadic rational m / 2^k (how a Python float is passed) *)
-Definition qd (m k : Z) : bigQ := BigQ.div_norm (BigQ.of_Z m) (BigQ.of_Z (2 ^ k)).
-Definition cqd (a : Z * Z) (b : Z * Z) : bigQ * bigQ := (qd (fst a) (snd a), qd (fst b) (snd b)).
+(* ---- dyadic numbers m / 2^e (every Python float is one) ----
+   BigQ's normalising operations cost a gcd each (measured: 500x slower than
+   the bigZ operations below on the 1000-bit numbers an exact 6-mode product
+   reaches), and every denominator here is a power of two. *)
+Definition dy : Type := (bigZ * bigZ)%type.       (* (m, e), e >= 0, value m * 2^-e *)
+Definition dalign (x y : dy) : bigZ * bigZ * bigZ :=
+  let '(m1, e1) := x in let '(m2, e2) := y in
+  if BigZ.leb e1 e2 then (BigZ.shiftl m1 (BigZ.sub e2 e1), m2, e2)
+  else (m1, BigZ.shiftl m2 (BigZ.sub e1 e2), e1).
+Definition dadd (x y : dy) : dy := let '(a, b, e) := dalign x y in (BigZ.add a b, e).
+Definition dsub (x y : dy) : dy := let '(a, b, e) := dalign x y in (BigZ.sub a b, e).
+Definition dmul (x y : dy) : dy := (BigZ.mul (fst x) (fst y), BigZ.add (snd x) (snd y)).
+Definition dopp (x : dy) : dy := (BigZ.opp (fst x), snd x).
+Definition deqb (x y : dy) : bool := let '(a, b, _) := dalign x y in BigZ.eqb a b.
+Definition dleb (x y : dy) : bool := let '(a, b, _) := dalign x y in BigZ.leb a b.
+(* inverse, exact on powers of two (the only use: 1/2); 0 elsewhere *)
+Definition dinv (x : dy) : dy :=
+  let '(m, e) := x in
+  let j := BigZ.log2 m in
+  if BigZ.eqb m (BigZ.shiftl 1 j) then
+    (if BigZ.leb j e then (BigZ.shiftl 1 (BigZ.sub e j), 0%bigZ) else (1%bigZ, BigZ.sub j e))
+  else (0%bigZ, 0%bigZ).
+Definition dops : ops dy :=
+  mkOps dy (0%bigZ, 0%bigZ) (1%bigZ, 0%bigZ) dadd dmul dsub dopp dinv (fun x => x) deqb dleb
+        (fun z => (BigZ.of_Z z, 0%bigZ)).
+Definition cdops : ops (dy * dy) := cplx dops.
 
-Fixpoint lookup {V} (x : bigQ) (l : list (bigQ * V)) (d : V) : V :=
+Definition qd (m k : Z) : dy := (BigZ.of_Z m, BigZ.of_Z k).
+(* floor (x / y), y > 0 *)
+Definition dfdiv (x y : dy) : Z :=
+  BigZ.to_Z (BigZ.div (BigZ.shiftl (fst x) (snd y)) (BigZ.shiftl (fst y) (snd x))).
+(* floor (x * 10^12) *)
+Definition d_out (x : dy) : Z :=
+  BigZ.to_Z (BigZ.div (BigZ.mul (fst x) (BigZ.of_Z scale)) (BigZ.shiftl 1 (snd x))).
+Definition sxQ (x : dy) : sx := SI (d_out x).
+Definition sxC (x : dy * dy) : sx := SL [sxQ (fst x); sxQ (snd x)].
+Definition sxMat (n m : nat) (A : nat -> nat -> dy * dy) : sx :=
+  SL (map (fun i => SL (map (fun j => sxC (A i j)) (seq 0 m))) (seq 0 n)).
+
+Fixpoint lookup {V} (x : dy) (l : list (dy * V)) (d : V) : V :=
   match l with
   | [] => d
-  | (k, v) :: l' => if BigQ.eq_bool k x then v else lookup x l' d
+  | (k, v) :: l' => if deqb k x then v else lookup x l' d
   end.
 Fixpoint lookupZ {V} (x : Z) (l : list (Z * V)) (d : V) : V :=
   match l with
@@ -22,71 +57,73 @@ Fixpoint lookupZ {V} (x : Z) (l : list (Z * V)) (d : V) : V :=
   | (k, v) :: l' => if Z.eqb k x then v else lookupZ x l' d
   end.
 
-Definition qfloor (x : bigQ) : Z := let q := BigQ.to_Q x in (Qnum q / Zpos (Qden q))%Z.
-
-Definition loud : bigQ := BigQ.of_Z 7.     (* value of a missing table entry: visibly wrong *)
+Definition loud : dy := (7%bigZ, 0%bigZ).     (* value of a missing table entry: visibly wrong *)
 
 Record tables : Type := mkTables {
-  t_cis : list (bigQ * (bigQ * bigQ));
-  t_bs : list (bigQ * (bigQ * bigQ));
-  t_sqrt : list (bigQ * bigQ);
-  t_pi : bigQ;
+  t_cis : list (dy * (dy * dy));
+  t_bs : list (dy * (dy * dy));
+  t_sqrt : list (dy * dy);
+  t_pi : dy;
   t_ints : list (Z * list Z);
-  t_unif : list (Z * list bigQ);
-  t_norm : list (Z * list bigQ) }.
+  t_unif : list (Z * list dy);
+  t_norm : list (Z * list dy) }.
 
-Definition stream (t : list (Z * list bigQ)) (src : rsrc) (k : nat) : bigQ :=
+Definition stream (t : list (Z * list dy)) (src : rsrc) (k : nat) : dy :=
   match src with
   | Seeded s => nth k (lookupZ s t []) loud
   | Entropy _ => loud
   end.
 
-Definition qenv (t : tables) : env (K:=bigQ) :=
+(* the float constants 1e-20 and 1e-10 as dyadics *)
+Definition f1em20 : dy := qd 6646139978924579 119.
+Definition f1em10 : dy := qd 7737125245533627 86.
+
+Definition qenv (t : tables) : env (K:=dy) :=
   mkEnv (fun x => lookup x (t_cis t) (loud, loud))
         (fun x => lookup x (t_bs t) (loud, loud))
         (fun x => lookup x (t_sqrt t) loud)
-        qfloor (t_pi t)
-        (qfrac 1 (10 ^ 40)) (qfrac 1 (10 ^ 10)) (qfrac 1 (10 ^ 20))
+        dfdiv (t_pi t)
+        (dmul f1em20 f1em20) f1em10 (dmul f1em10 f1em10)
         (fun s k => nth k (lookupZ s (t_ints t) []) (-1)%Z)
         (stream (t_unif t)) (stream (t_norm t)).
 
-Definition of_rowsC (l : list (list (bigQ * bigQ))) : nat -> nat -> bigQ * bigQ :=
-  fun i j => nth j (nth i l []) (k0 cqops).
+Definition of_rowsC (l : list (list (dy * dy))) : nat -> nat -> dy * dy :=
+  fun i j => nth j (nth i l []) (k0 cdops).
 Definition fun_of {A} (l : list A) (d : A) : nat -> A := fun k => nth k l d.
 
-Definition sxNrec (r : nrec (K:=bigQ)) : sx :=
+Definition sxNrec (r : nrec (K:=dy)) : sx :=
   SL [sxN (nr_j r + 2 * nr_i r); sxN (nr_j r); sxB (nr_small r); sxQ (nr_theta r); sxQ (nr_phi r)].
 
 (* reck_decomposition on U with the implementation's answers; also the exact
    product  D' . T_K ... T_1  with D' = diag(exp(i end_phase)) *)
-Definition run_decomp (t : tables) (n : nat) (U : list (list (bigQ * bigQ)))
-           (ans : list (bigQ * bigQ)) (ends : list bigQ) : sx :=
+Definition run_decomp (t : tables) (n : nat) (U : list (list (dy * dy)))
+           (ans : list (dy * dy)) (ends : list dy) : sx :=
   let E := qenv t in
-  sxRes (fun dc : decomp (K:=bigQ) =>
+  sxRes (fun dc : decomp (K:=dy) =>
            SL [ SL (map sxNrec (dc_recs dc));
                 SL (map sxQ (dc_end dc));
                 sxMat n n (dc_nulled dc);
-                sxMat n n (rebuild qops E n (dc_recs dc) (map (e_cis E) (dc_end dc))) ])
-        (reck_decomposition qops E n (tab cqops n (of_rowsC U)) (fun_of ans (0, 0)%bigQ) (fun_of ends 0%bigQ)).
+                sxMat n n (rebuild dops E n (dc_recs dc) (map (e_cis E) (dc_end dc))) ])
+        (reck_decomposition dops E n (tab cdops n (of_rowsC U)) (fun_of ans (k0 dops, k0 dops)) (fun_of ends (k0 dops))).
 
 (* distributions *)
 Inductive dspec : Type :=
-| SConst (v : pyval (K:=bigQ))
-| STopHat (lo hi : pyval (K:=bigQ))
-| SGauss (c d lo hi : pyval (K:=bigQ)).
+| SConst (v : pyval (K:=dy))
+| STopHat (lo hi : pyval (K:=dy))
+| SGauss (c d lo hi : pyval (K:=dy)).
 
-Definition mk_dist (d : dspec) (g : rng) : res (dobj (K:=bigQ)) :=
+Definition mk_dist (d : dspec) (g : rng) : res (dobj (K:=dy)) :=
   match d with
   | SConst v => mk_const v g
-  | STopHat lo hi => mk_tophat qops lo hi g
-  | SGauss c dv lo hi => mk_gauss qops c dv lo hi g
+  | STopHat lo hi => mk_tophat dops lo hi g
+  | SGauss c dv lo hi => mk_gauss dops c dv lo hi g
   end.
 
-Fixpoint draws (E : env (K:=bigQ)) (fuel count : nat) (x : dobj (K:=bigQ)) : list sx * dobj (K:=bigQ) :=
+Fixpoint draws (E : env (K:=dy)) (fuel count : nat) (x : dobj (K:=dy)) : list sx * dobj (K:=dy) :=
   match count with
   | O => ([], x)
   | S c =>
-      match dist_value qops E fuel x with
+      match dist_value dops E fuel x with
       | Ok (v, x') => let r := draws E fuel c x' in (SL [SI 0%Z; sxQ v] :: fst r, snd r)
       | Err e => ([SL [SI 1%Z; SI (err_code e)]], x)
       end
@@ -106,16 +143,16 @@ Definition run_dist (t : tables) (d : dspec) (seed : Z) (fuel count : nat) : sx 
 (* ErrorModel: construct the three distributions (each with an unrelated
    generator state [g0 k]), _set_random_seed, then a sequence of get_* calls
    (0 = bs_reflectivity, 1 = loss, 2 = phase_offset) *)
-Definition mk_em (bs ls ph : dspec) (g0 : nat -> rng) : res (emodel (K:=bigQ)) :=
+Definition mk_em (bs ls ph : dspec) (g0 : nat -> rng) : res (emodel (K:=dy)) :=
   do a <- mk_dist bs (g0 0%nat); do b <- mk_dist ls (g0 1%nat); do c <- mk_dist ph (g0 2%nat);
   Ok (mkEm a b c).
 
-Fixpoint em_calls (E : env (K:=bigQ)) (fuel : nat) (calls : list nat) (em : emodel (K:=bigQ)) : list sx :=
+Fixpoint em_calls (E : env (K:=dy)) (fuel : nat) (calls : list nat) (em : emodel (K:=dy)) : list sx :=
   match calls with
   | [] => []
   | c :: calls' =>
       let x := match c with 0%nat => em_bs em | 1%nat => em_loss em | _ => em_phase em end in
-      match dist_value qops E fuel x with
+      match dist_value dops E fuel x with
       | Ok (v, x') =>
           let em' := match c with
                      | 0%nat => mkEm x' (em_loss em) (em_phase em)
@@ -127,17 +164,17 @@ Fixpoint em_calls (E : env (K:=bigQ)) (fuel : nat) (calls : list nat) (em : emod
       end
   end.
 
-Definition sxEmRng (em : emodel (K:=bigQ)) : sx :=
+Definition sxEmRng (em : emodel (K:=dy)) : sx :=
   SL [sxRng (d_rng (em_bs em)); sxRng (d_rng (em_loss em)); sxRng (d_rng (em_phase em))].
 
 Definition run_em (t : tables) (bs ls ph : dspec) (hist : list nat) (seed : pyseed) (fuel : nat) (calls : list nat) : sx :=
-  sxRes (fun em : emodel (K:=bigQ) => SL [sxEmRng em; SL (em_calls (qenv t) fuel calls em)])
+  sxRes (fun em : emodel (K:=dy) => SL [sxEmRng em; SL (em_calls (qenv t) fuel calls em)])
         (do em0 <- mk_em bs ls ph (fun k => mkRng (Entropy (100 + k)) (nth k hist 0%nat));
          set_random_seed (qenv t) em0 seed 0).
 
 (* Reck.map *)
-Definition sxPhase (p : phase (K:=bigQ)) : sx := sxQ (ph_val p).
-Definition sxComp (c : comp (K:=bigQ)) : sx :=
+Definition sxPhase (p : phase (K:=dy)) : sx := sxQ (ph_val p).
+Definition sxComp (c : comp (K:=dy)) : sx :=
   match c with
   | CBarrier ms => SL [SI 0%Z; sxNs ms]
   | CPS m p => SL [SI 1%Z; sxN m; sxPhase p]
@@ -147,13 +184,13 @@ Definition sxComp (c : comp (K:=bigQ)) : sx :=
 Definition sxHer (h : list (nat * Z)) : sx := SL (map (fun p => SL [sxN (fst p); SI (snd p)]) h).
 
 Definition run_map (t : tables) (bs ls ph : dspec) (hist : list nat) (seed : pyseed) (fuel : nat)
-           (n : nat) (U : list (list (bigQ * bigQ))) (hin hout : list (nat * Z))
-           (ans : list (bigQ * bigQ)) (ends : list bigQ) : sx :=
+           (n : nat) (U : list (list (dy * dy))) (hin hout : list (nat * Z))
+           (ans : list (dy * dy)) (ends : list dy) : sx :=
   let E := qenv t in
-  sxRes (fun r : circuit (K:=bigQ) * emodel (K:=bigQ) =>
+  sxRes (fun r : circuit (K:=dy) * emodel (K:=dy) =>
            let c := fst r in
            SL [ SL (map sxComp (c_spec c)); sxHer (c_hin c); sxHer (c_hout c);
-                sxMat n n (compile qops E n (c_spec c)); sxEmRng (snd r) ])
+                sxMat n n (compile dops E n (c_spec c)); sxEmRng (snd r) ])
         (do em0 <- mk_em bs ls ph (fun k => mkRng (Entropy (100 + k)) (nth k hist 0%nat));
-         reck_map qops E fuel em0 n (tab cqops n (of_rowsC U)) hin hout seed 0
-                  (fun_of ans (0, 0)%bigQ) (fun_of ends 0%bigQ)).
+         reck_map dops E fuel em0 n (tab cdops n (of_rowsC U)) hin hout seed 0
+                  (fun_of ans (k0 dops, k0 dops)) (fun_of ends (k0 dops))).
